@@ -518,11 +518,23 @@ def check_marker(ctx: Ctx) -> None:
 
     # -- the reader: which tests recognise a prefix, with and without a marker
     loops = [n for n in walk_no_defs(rd.node) if isinstance(n, ast.For)]
-    if len(loops) != 1 or not (isinstance(loops[0].target, ast.Tuple) and len(loops[0].target.elts) == 2 and all(isinstance(x, ast.Name) for x in loops[0].target.elts)):
-        raise AnalysisError(f'{rd.loc()}: expected one loop over (prefix, name) pairs in the marker reader')
-    rp, rn = (x.id for x in loops[0].target.elts)  # type: ignore[attr-defined]
+    if len(loops) != 1:
+        raise AnalysisError(f'{rd.loc()}: expected one loop over the keys in the marker reader')
+    pair_src: ast.AST = loops[0].iter
+    body_rest = list(loops[0].body)
+    if isinstance(loops[0].target, ast.Tuple) and len(loops[0].target.elts) == 2 and all(isinstance(x, ast.Name) for x in loops[0].target.elts):
+        rp, rn = (x.id for x in loops[0].target.elts)  # type: ignore[attr-defined]
+    else:
+        # the explicit form: `for key in keys: [if '/' not in key: continue]  prefix, name = key.split('/', 1)  ...`
+        unpack = [st for st in loops[0].body if isinstance(st, ast.Assign) and len(st.targets) == 1 and isinstance(st.targets[0], ast.Tuple)
+                  and len(st.targets[0].elts) == 2 and all(isinstance(x, ast.Name) for x in st.targets[0].elts)]
+        if len(unpack) != 1:
+            raise AnalysisError(f'{rd.loc()}: expected one loop over (prefix, name) pairs in the marker reader')
+        rp, rn = (x.id for x in unpack[0].targets[0].elts)  # type: ignore[attr-defined]
+        pair_src = unpack[0].value
+        body_rest = loops[0].body[loops[0].body.index(unpack[0]) + 1:]
     arms: list[tuple[ast.AST, bool]] = []       # (test, uses the marker name)
-    node: Any = loops[0].body[0] if len(loops[0].body) == 1 else None
+    node: Any = body_rest[0] if len(body_rest) == 1 else None
     while isinstance(node, ast.If):
         adds = any(isinstance(c.func, ast.Attribute) and c.func.attr == 'add' and c.args and dotted(c.args[0]) == rp for c in calls_in(ast.Module(body=node.body, type_ignores=[])))
         if adds:
@@ -536,7 +548,7 @@ def check_marker(ctx: Ctx) -> None:
            construct=f'{rd.qualname}:keys:marker-arm')
     ctx.require_sites('R4.3', 'reader: marker-free recognition tests', len(free_arms), 1, rd.loc())
     # the (prefix, name) pairs come from splitting at the first "/"
-    it = loops[0].iter
+    it = pair_src
     splits = [c for c in calls_in(it) if isinstance(c.func, ast.Attribute) and c.func.attr == 'split' and c.args and isinstance(c.args[0], ast.Constant)]
     ok_split = len(splits) == 1 and splits[0].args[0].value == '/' and len(splits[0].args) == 2 and isinstance(splits[0].args[1], ast.Constant) and splits[0].args[1].value == 1
     ctx.ob('R4.3', 'reader: keys are split into prefix and name at the first "/"', ok_split, loc=rd.loc(it), construct=f'{rd.qualname}:keys:split')
@@ -762,7 +774,12 @@ def check_diff(ctx: Ctx) -> None:
         while p is not None and p is not f.node:
             if isinstance(p, ast.If) and any(child is s for s in p.body):
                 gname = _scope_guard(repo, f, p.test)
-                guards.append(gname or f'?{src(p.test)}')
+                # the type-dispatch arm (`isinstance(a, Mapping) and isinstance(b, Mapping)`, the if-chain form of `case Mapping(), Mapping()`)
+                # selects the mapping case; it is not a condition on the recursion
+                parts = p.test.values if isinstance(p.test, ast.BoolOp) and isinstance(p.test.op, ast.And) else [p.test]
+                dispatch = all(isinstance(x, ast.Call) and dotted(x.func) == 'isinstance' and len(x.args) == 2 and dotted(x.args[0]) in (PA, PB) for x in parts)
+                if not dispatch:
+                    guards.append(gname or f'?{src(p.test)}')
             child, p = p, f.module.parent.get(p)
         it = it if not isinstance(it, ast.Name) else (single_def(f, it.id) or ('', it))[1]
         kind = None
